@@ -36,7 +36,7 @@ def main():
         })
     man = {
         "version": 1,
-        "setup_cmd": "/venv/bin/python harness/translate/iocalls.py /repo && PYTHONPATH=/repo /venv/bin/python harness/translate/setters.py /repo && cd lean && lake build driver GeoVerif",
+        "setup_cmd": "/venv/bin/python harness/translate/iocalls.py /repo && PYTHONPATH=/repo /venv/bin/python harness/translate/setters.py /repo && PYTHONPATH=/repo /venv/bin/python harness/translate/py2lean.py /repo && cd lean && lake build driver GeoVerif",
         "hooks": {
             "guard": "GEOH5PY_VERIF",
             "enable": "no hook lives in /repo: the harness monkey-patches wrappers at run time (GEOH5PY_VERIF=1 is exported by ./check for documentation only)",
